@@ -28,21 +28,28 @@ pub enum Lane {
     Val(u8),
     Map(u8),
     Cmd2,
+    /// The demand lane `d0` (`context.cue`, `on_cue`).
+    Dem,
+    /// The demand-map lane `dm0` (`context.cue_key`, `on_cue_key`).
+    DemMap,
 }
 
 impl Lane {
-    /// Position in the acyclicity order: cmd < v0 < m0 < v1 < m1 < v2 < s0 < ms0 < cmd2.
+    /// Position in the acyclicity order:
+    /// cmd < v0 < m0 < d0 < v1 < m1 < dm0 < v2 < s0 < ms0 < cmd2.
     pub fn order(self) -> usize {
         match self {
             Lane::Cmd => 0,
-            Lane::Val(0) => 1,
-            Lane::Map(0) => 2,
-            Lane::Val(1) => 3,
-            Lane::Map(1) => 4,
-            Lane::Val(2) => 5,
-            Lane::Val(_) => 6,
-            Lane::Map(_) => 7,
-            Lane::Cmd2 => 8,
+            Lane::Val(0) => 10,
+            Lane::Map(0) => 20,
+            Lane::Dem => 25,
+            Lane::Val(1) => 30,
+            Lane::Map(1) => 40,
+            Lane::DemMap => 45,
+            Lane::Val(2) => 50,
+            Lane::Val(_) => 60,
+            Lane::Map(_) => 70,
+            Lane::Cmd2 => 80,
         }
     }
 
@@ -54,6 +61,8 @@ impl Lane {
             Lane::Val(_) => "value-store",
             Lane::Map(i) if (i as usize) < N_MAP_LANES => "map",
             Lane::Map(_) => "map-store",
+            Lane::Dem => "demand",
+            Lane::DemMap => "demand-map",
         }
     }
 }
@@ -121,6 +130,65 @@ pub enum Node {
     FollowedBy(NodeId, NodeId),
     /// `a.and_then(|r| b(r))`: `b`'s input is `a`'s result.
     AndThen(NodeId, NodeId),
+    // ---- extension (coverage gap 17): the other documented combinators -------------------------
+    /// `a.and_then_contextual(|agent, r| ..)`: like `and_then`, and the function reads value item
+    /// `v<lane>` directly from the agent it is given (recorded when the resulting handler runs).
+    AndThenCtx(NodeId, u8, NodeId),
+    /// `a.and_then_try(|r| ..)`: the function fails (`Err(EventHandlerError::EffectError)`) when
+    /// `modulus > 0 && r mod modulus == 0`, otherwise it produces `b(r)`.
+    AndThenTry(NodeId, u8, NodeId),
+    /// `join(a, b)`: both get the same input; completes with `combine2` of the two results.
+    Join(NodeId, NodeId),
+    /// `join3(a, b, c)`.
+    Join3(NodeId, NodeId, NodeId),
+    /// `Option<H>` as a handler: `Some(child)` runs the child and completes with its result,
+    /// `None` completes at once (with the input).
+    Opt(Option<NodeId>),
+    /// `SideEffects` over an iterator of `n` logging items; completes with input + n.
+    Effects(u8),
+    /// `Sequentially::new([..])` over the handlers of `Program::seqs[i]` (each discarded);
+    /// completes with the input.
+    Seq(u32),
+    /// `context.get_parameter(PARAM_NAMES[i])`; completes with `param_result`.
+    GetParam(u8),
+    /// `context.with_parameters(..)`; completes with `count * 1000 + id`.
+    WithParams,
+    /// `context.get_agent_uri()`; completes with the input.
+    GetUri,
+    /// `context.schedule_timer_event(delay ms, id)`; completes with the input.
+    Timer { delay: u8, id: u8 },
+    // ---- extension (coverage gap 18): other lane kinds ------------------------------------------
+    /// `context.cue(d0)`; completes with the input.
+    Cue,
+    /// `context.cue_key(dm0, k)`; completes with the input.
+    CueKey(Key),
+    /// `context.open_value_lane("dyn<id>", on_done)` where `on_done` produces the handler for the
+    /// child tree (only generated for `on_start`); completes with the input.
+    OpenLane(NodeId),
+}
+
+/// Names asked for by `GetParam`; the agent runs with the route parameters `id` and `zone`.
+pub const PARAM_NAMES: [&str; 3] = ["id", "zone", "missing"];
+pub const PARAM_ZONE: &str = "north";
+
+pub fn combine2(a: i64, b: i64) -> i64 {
+    a.wrapping_mul(3).wrapping_add(b)
+}
+
+pub fn combine3(a: i64, b: i64, c: i64) -> i64 {
+    a.wrapping_mul(5).wrapping_add(b.wrapping_mul(3)).wrapping_add(c)
+}
+
+/// The completion value of a `GetParam` node, from what `get_parameter` returned.
+pub fn param_result(v: &Option<String>) -> i64 {
+    match v {
+        None => -1,
+        Some(s) => s.parse::<i64>().unwrap_or(s.len() as i64),
+    }
+}
+
+pub fn try_fails(modulus: u8, r: i64) -> bool {
+    modulus > 0 && r.rem_euclid(modulus as i64) == 0
 }
 
 impl Node {
@@ -139,6 +207,20 @@ impl Node {
             Node::Suspend(_) => "suspend",
             Node::FollowedBy(..) => "followed_by",
             Node::AndThen(..) => "and_then",
+            Node::AndThenCtx(..) => "and_then_contextual",
+            Node::AndThenTry(..) => "and_then_try",
+            Node::Join(..) => "join",
+            Node::Join3(..) => "join3",
+            Node::Opt(_) => "option",
+            Node::Effects(_) => "side_effects",
+            Node::Seq(_) => "sequentially",
+            Node::GetParam(_) => "get_parameter",
+            Node::WithParams => "with_parameters",
+            Node::GetUri => "get_agent_uri",
+            Node::Timer { .. } => "schedule_timer_event",
+            Node::Cue => "cue",
+            Node::CueKey(_) => "cue_key",
+            Node::OpenLane(_) => "open_lane",
         }
     }
 }
@@ -156,13 +238,21 @@ pub enum Event {
     OnUpdate(u8),
     OnRemove(u8),
     OnClear(u8),
+    /// `on_timer(id)`.
+    Timer(u8),
+    /// `on_cue(d0)`.
+    OnCue,
+    /// `on_cue_key(dm0)`.
+    OnCueKey,
 }
 
 impl Event {
     /// Acyclicity rank of the lane owning the event (`on_start`/`on_stop` rank like `cmd`).
     pub fn owner_order(self) -> usize {
         match self {
-            Event::Start | Event::Stop | Event::Command(_) => Lane::Cmd.order(),
+            Event::Start | Event::Stop | Event::Command(_) | Event::Timer(_) => Lane::Cmd.order(),
+            Event::OnCue => Lane::Dem.order(),
+            Event::OnCueKey => Lane::DemMap.order(),
             Event::Command2 => Lane::Cmd2.order(),
             Event::OnEvent(i) | Event::OnSet(i) => Lane::Val(i).order(),
             Event::OnUpdate(i) | Event::OnRemove(i) | Event::OnClear(i) => Lane::Map(i).order(),
@@ -177,6 +267,12 @@ pub struct Program {
     pub parent: Vec<Option<NodeId>>,
     pub table: BTreeMap<Event, NodeId>,
     pub n_progs: u32,
+    /// Children of the `Seq` nodes.
+    pub seqs: Vec<Vec<NodeId>>,
+    /// Value of the route parameter `id` the agent is started with.
+    pub param_id: i64,
+    /// The program uses node kinds of the extension (a fraction of the programs).
+    pub ext: bool,
 }
 
 impl Program {
@@ -207,8 +303,29 @@ impl Program {
             Node::Suspend(c) => format!("#{id}:suspend({})", self.render(c)),
             Node::FollowedBy(a, b) => format!("#{id}:followed_by({}, {})", self.render(a), self.render(b)),
             Node::AndThen(a, b) => format!("#{id}:and_then({}, {})", self.render(a), self.render(b)),
+            Node::AndThenCtx(a, l, b) => format!("#{id}:and_then_contextual({}, reads v{l}, {})", self.render(a), self.render(b)),
+            Node::AndThenTry(a, m, b) => format!("#{id}:and_then_try({}, fails if r%{m}==0, {})", self.render(a), self.render(b)),
+            Node::Join(a, b) => format!("#{id}:join({}, {})", self.render(a), self.render(b)),
+            Node::Join3(a, b, c) => format!("#{id}:join3({}, {}, {})", self.render(a), self.render(b), self.render(c)),
+            Node::Opt(Some(c)) => format!("#{id}:Some({})", self.render(c)),
+            Node::Seq(i) => {
+                let cs: Vec<String> = self.seqs[i as usize].iter().map(|c| self.render(*c)).collect();
+                format!("#{id}:sequentially[{}]", cs.join(", "))
+            }
+            Node::OpenLane(c) => format!("#{id}:open_lane(on_done: {})", self.render(c)),
             n => format!("#{id}:{n:?}"),
         }
+    }
+
+    pub fn any_node(&self, f: impl Fn(&Node) -> bool) -> bool {
+        self.nodes.iter().any(f)
+    }
+
+    /// The order of some handlers of this program relative to a *following* input is not fixed by
+    /// the documentation (a timer that is due at once; a demand-map key cued while an earlier one
+    /// is still to be written): its inputs are sent one at a time, each followed by quiescence.
+    pub fn needs_settled_inputs(&self) -> bool {
+        self.any_node(|n| matches!(n, Node::CueKey(_) | Node::Timer { delay: 0, .. }))
     }
 
     pub fn describe(&self) -> Vec<String> {
@@ -251,6 +368,23 @@ pub enum Ev {
     /// Final lane states read by a fixed probe appended to the `on_stop` handler.
     FinalV { lane: u8, v: i64 },
     FinalM { lane: u8, map: MapSnap },
+    // ---- extension ------------------------------------------------------------------------------
+    OnTimer { id: u64 },
+    OnCue,
+    OnCueKey { key: i32 },
+    /// The handler produced by the `on_done` callback of `open_lane` started.
+    LaneOpened { node: NodeId },
+    /// What the function of `and_then_contextual` read from the agent when it was applied.
+    CtxRead { node: NodeId, lane: u8, v: i64 },
+    /// Item `i` of a `SideEffects` iterator was drawn.
+    EffectItem { node: NodeId, i: u8 },
+    Param { node: NodeId, name: u8, value: Option<String> },
+    Params { node: NodeId, n: u32, id: i64 },
+    Uri { node: NodeId, uri: String },
+    TimerSet { node: NodeId, id: u8, delay: u8 },
+    Cue { node: NodeId },
+    CueKey { node: NodeId, key: i32 },
+    OpenLane { node: NodeId },
 }
 
 impl Ev {
@@ -279,6 +413,19 @@ impl Ev {
             Ev::Resume { .. } => "resume",
             Ev::FinalV { .. } => "final_value",
             Ev::FinalM { .. } => "final_map",
+            Ev::OnTimer { .. } => "on_timer",
+            Ev::OnCue => "on_cue",
+            Ev::OnCueKey { .. } => "on_cue_key",
+            Ev::LaneOpened { .. } => "lane_opened",
+            Ev::CtxRead { .. } => "contextual_read",
+            Ev::EffectItem { .. } => "side_effects",
+            Ev::Param { .. } => "get_parameter",
+            Ev::Params { .. } => "with_parameters",
+            Ev::Uri { .. } => "get_agent_uri",
+            Ev::TimerSet { .. } => "schedule_timer_event",
+            Ev::Cue { .. } => "cue",
+            Ev::CueKey { .. } => "cue_key",
+            Ev::OpenLane { .. } => "open_lane",
         }
     }
 
@@ -295,14 +442,26 @@ impl Ev {
             | Ev::Fail { node }
             | Ev::StopLeaf { node }
             | Ev::Suspend { node }
-            | Ev::Resume { node } => Some(*node),
+            | Ev::Resume { node }
+            | Ev::CtxRead { node, .. }
+            | Ev::EffectItem { node, .. }
+            | Ev::Param { node, .. }
+            | Ev::Params { node, .. }
+            | Ev::Uri { node, .. }
+            | Ev::TimerSet { node, .. }
+            | Ev::Cue { node }
+            | Ev::CueKey { node, .. }
+            | Ev::OpenLane { node } => Some(*node),
             _ => None,
         }
     }
 
     /// Entry of a lifecycle handler triggered by a lane change.
     pub fn is_trigger(&self) -> bool {
-        matches!(self, Ev::OnEvent { .. } | Ev::OnSet { .. } | Ev::OnUpdate { .. } | Ev::OnRemove { .. } | Ev::OnClear { .. } | Ev::Command2 { .. })
+        matches!(
+            self,
+            Ev::OnEvent { .. } | Ev::OnSet { .. } | Ev::OnUpdate { .. } | Ev::OnRemove { .. } | Ev::OnClear { .. } | Ev::Command2 { .. } | Ev::OnCue | Ev::OnCueKey { .. }
+        )
     }
 }
 
@@ -347,7 +506,7 @@ impl Input {
 #[derive(Clone, Copy, Debug, PartialEq, Eq, Hash)]
 pub enum Step {
     Send(Input),
-    /// Wait for quiescence (1 ms of virtual time on the paused clock).
+    /// Wait for quiescence (2 ms of virtual time on the paused clock).
     Settle,
     /// Complete the `i % pending`-th pending suspended future (no-op if none is pending). Always
     /// between two `Settle`s: the order of a completion relative to commands is determined only
@@ -370,6 +529,20 @@ struct TreeGen<'a> {
     /// Weight of modifying leaves relative to reads (out of 100).
     modify_w: u64,
     budget: usize,
+    /// Node kinds of the extension may be generated.
+    ext: bool,
+    /// `schedule_timer_event` may be generated: only in trees that start at a time decided by the
+    /// harness (`on_start`, `on_stop`, `on_command(cmd)`, and futures they suspend), never in
+    /// `on_timer` or lane handlers (those could be reached from a timer), so that a deadline never
+    /// coincides with a step of the harness.
+    timers_ok: bool,
+    /// `open_lane` may be generated: `on_start` only, not in a suspended future (that runs after
+    /// initialisation) and not inside another `on_done` handler.
+    open_ok: bool,
+    /// A program has either `cue_key` nodes or timers that are due at once, never both: both ask
+    /// for "a handler of its own as soon as the current one has completed" and nothing documents
+    /// which of the two comes first.
+    cue_key_ok: bool,
 }
 
 impl<'a> TreeGen<'a> {
@@ -393,8 +566,30 @@ impl<'a> TreeGen<'a> {
     /// Lanes this tree may modify (strictly above its owner in the order).
     fn targets(&self) -> Vec<Lane> {
         let mut all = vec![Lane::Val(0), Lane::Map(0), Lane::Val(1), Lane::Map(1), Lane::Val(2), Lane::Val(3), Lane::Map(2), Lane::Cmd2];
+        if self.ext {
+            all.insert(2, Lane::Dem);
+            if self.cue_key_ok {
+                all.insert(5, Lane::DemMap);
+            }
+        }
         all.retain(|l| l.order() > self.owner);
         all
+    }
+
+    /// A leaf of the extension: route parameters, agent URI, `SideEffects`, a timer.
+    fn ext_leaf(&mut self) -> NodeId {
+        let n = match self.rng.below(10) {
+            0..=1 => Node::Effects(self.rng.below(4) as u8),
+            2..=3 => Node::GetParam(self.rng.below(PARAM_NAMES.len() as u64) as u8),
+            4 => Node::WithParams,
+            5 => Node::GetUri,
+            _ if self.timers_ok => {
+                let delays: &[u8] = if self.cue_key_ok { &[1, 1, 3, 3, 5, 7] } else { &[0, 0, 1, 1, 3, 3, 5, 7] };
+                Node::Timer { delay: *self.rng.pick(delays), id: self.rng.below(3) as u8 }
+            }
+            _ => Node::Effects(self.rng.below(3) as u8),
+        };
+        self.prog.push(n)
     }
 
     fn leaf(&mut self) -> NodeId {
@@ -402,6 +597,9 @@ impl<'a> TreeGen<'a> {
         if self.rng.below(1000) < self.abort_pm {
             let n = if self.rng.bool() { Node::Fail } else { Node::Stop };
             return self.prog.push(n);
+        }
+        if self.ext && self.rng.chance(1, 5) {
+            return self.ext_leaf();
         }
         let targets = self.targets();
         if !targets.is_empty() && self.rng.below(100) < self.modify_w {
@@ -414,6 +612,8 @@ impl<'a> TreeGen<'a> {
                     6..=8 => Node::Remove(i, self.key()),
                     _ => Node::Clear(i),
                 },
+                Lane::Dem => Node::Cue,
+                Lane::DemMap => Node::CueKey(self.key()),
                 _ => Node::Command2(self.expr()),
             };
             return self.prog.push(n);
@@ -432,10 +632,15 @@ impl<'a> TreeGen<'a> {
         }
         self.budget -= 1;
         if self.rng.below(1000) < self.suspend_pm {
+            let open_ok = std::mem::replace(&mut self.open_ok, false);
             let c = self.tree(depth_left - 1);
+            self.open_ok = open_ok;
             let id = self.prog.push(Node::Suspend(c));
             self.prog.link(id, c);
             return id;
+        }
+        if self.ext && self.rng.chance(2, 5) {
+            return self.ext_tree(depth_left);
         }
         let a = self.tree(depth_left - 1);
         let b = self.tree(depth_left - 1);
@@ -444,6 +649,68 @@ impl<'a> TreeGen<'a> {
         self.prog.link(id, a);
         self.prog.link(id, b);
         id
+    }
+}
+
+impl<'a> TreeGen<'a> {
+    fn add(&mut self, n: Node, children: &[NodeId]) -> NodeId {
+        let id = self.prog.push(n);
+        for c in children {
+            self.prog.link(id, *c);
+        }
+        id
+    }
+
+    /// A combinator of the extension (the budget for this node is already taken).
+    fn ext_tree(&mut self, depth_left: u32) -> NodeId {
+        let d = depth_left - 1;
+        match self.rng.below(if self.open_ok { 13 } else { 11 }) {
+            0..=1 => {
+                let a = self.tree(d);
+                let lane = self.rng.below(N_VAL as u64) as u8;
+                let b = self.tree(d);
+                self.add(Node::AndThenCtx(a, lane, b), &[a, b])
+            }
+            2..=3 => {
+                let a = self.tree(d);
+                let modulus = *self.rng.pick(&[0u8, 2, 2, 3, 5]);
+                let b = self.tree(d);
+                self.add(Node::AndThenTry(a, modulus, b), &[a, b])
+            }
+            4..=5 => {
+                let a = self.tree(d);
+                let b = self.tree(d);
+                self.add(Node::Join(a, b), &[a, b])
+            }
+            6 => {
+                let a = self.tree(d);
+                let b = self.tree(d);
+                let c = self.tree(d);
+                self.add(Node::Join3(a, b, c), &[a, b, c])
+            }
+            7..=8 => {
+                if self.rng.chance(1, 3) {
+                    self.add(Node::Opt(None), &[])
+                } else {
+                    let c = self.tree(d);
+                    self.add(Node::Opt(Some(c)), &[c])
+                }
+            }
+            9..=10 => {
+                let n = self.rng.below(4) as usize;
+                let cs: Vec<NodeId> = (0..n).map(|_| self.tree(d)).collect();
+                self.prog.seqs.push(cs.clone());
+                let i = (self.prog.seqs.len() - 1) as u32;
+                self.add(Node::Seq(i), &cs)
+            }
+            _ => {
+                // The `on_done` handler runs after `on_start`, still during initialisation.
+                self.open_ok = false;
+                let c = self.tree(d);
+                self.open_ok = true;
+                self.add(Node::OpenLane(c), &[c])
+            }
+        }
     }
 }
 
@@ -458,7 +725,15 @@ pub fn gen_program(rng: &mut Rng) -> Program {
     let abort_pm = *rng.pick(&[0u64, 0, 0, 0, 10, 25, 60]);
     let suspend_pm = *rng.pick(&[0u64, 60, 120, 250]);
     let lifecycle_density = *rng.pick(&[40u64, 60, 80, 95]);
+    // The node kinds of the extension appear in a fraction of the programs only, so that the
+    // workload of the original node kinds keeps its size.
+    prog.ext = rng.chance(3, 10);
+    prog.param_id = rng.range_i64(0, 99);
+    let cue_key_ok = rng.bool();
     let mut events: Vec<Event> = vec![Event::Start, Event::Stop, Event::Command2];
+    if prog.ext {
+        events.extend([Event::Timer(0), Event::Timer(1), Event::OnCue, Event::OnCueKey]);
+    }
     for p in 0..prog.n_progs {
         events.push(Event::Command(p));
     }
@@ -476,6 +751,8 @@ pub fn gen_program(rng: &mut Rng) -> Program {
             Event::Command(_) => (100, MAX_NODES - MAX_DEPTH as usize, 45),
             Event::Start | Event::Stop => (60, 12, 35),
             Event::Command2 => (70, 5, 0),
+            Event::Timer(_) => (70, 8, 40),
+            Event::OnCue | Event::OnCueKey => (80, 6, 35),
             _ => (lifecycle_density, 9, 35),
         };
         if rng.below(100) >= present_pc {
@@ -487,17 +764,36 @@ pub fn gen_program(rng: &mut Rng) -> Program {
         let depth = if budget <= 2 { 1 } else { rng.range(1, MAX_DEPTH as u64) as u32 };
         let before = prog.nodes.len();
         let root = {
-            let mut g = TreeGen { rng, prog: &mut prog, owner: ev.owner_order(), abort_pm: abort, suspend_pm, modify_w, budget };
+            let ext = prog.ext;
+            let timers_ok = matches!(ev, Event::Start | Event::Stop | Event::Command(_));
+            let mut g = TreeGen {
+                rng,
+                prog: &mut prog,
+                owner: ev.owner_order(),
+                abort_pm: abort,
+                suspend_pm,
+                modify_w,
+                budget,
+                ext,
+                timers_ok,
+                open_ok: ev == Event::Start,
+                cue_key_ok,
+            };
             g.tree(depth)
         };
-        // A tree overshoots its budget by at most one leaf per level of the recursion.
-        debug_assert!(prog.nodes.len() - before <= MAX_NODES);
+        // A tree overshoots its budget by at most two leaves per level of the recursion.
+        debug_assert!(prog.nodes.len() - before <= MAX_NODES + 2 * MAX_DEPTH as usize);
         prog.table.insert(ev, root);
     }
     prog
 }
 
 fn gen_input(rng: &mut Rng, prog: &Program, lane: Option<Lane>) -> Input {
+    // A sync request for the demand lane: "triggers when it is explicitly cued or an external
+    // sync request is received".
+    if prog.ext && (lane == Some(Lane::Dem) || (lane.is_none() && rng.chance(1, 16))) {
+        return Input::Sync(Lane::Dem);
+    }
     let lane = lane.unwrap_or_else(|| match rng.below(100) {
         0..=69 => Lane::Cmd,
         70..=84 => Lane::Val(rng.below(N_VAL_LANES as u64) as u8),
@@ -527,18 +823,22 @@ pub fn gen_script(rng: &mut Rng, prog: &Program) -> Vec<Step> {
     let n_cmds = rng.range(1, 8) as usize;
     let mut script = vec![];
     let mut sent = 0;
+    let bursts_ok = !prog.needs_settled_inputs();
     // Often populate the maps first (one same-lane burst per map) so that later removes and
     // clears find entries.
     if n_cmds >= 3 && rng.bool() {
         let lane = rng.below(N_MAP_LANES as u64) as u8;
         for _ in 0..2 {
             script.push(Step::Send(Input::Upd { lane, k: rng.below(KEYS as u64) as i32, v: rng.range_i64(0, 50) }));
+            if !bursts_ok {
+                script.push(Step::Settle);
+            }
         }
         script.push(Step::Settle);
         sent += 2;
     }
     while sent < n_cmds {
-        if n_cmds - sent >= 2 && rng.chance(3, 10) {
+        if bursts_ok && n_cmds - sent >= 2 && rng.chance(3, 10) {
             let k = (rng.range(2, 4) as usize).min(n_cmds - sent);
             let first = gen_input(rng, prog, None);
             script.push(Step::Send(first));
@@ -558,6 +858,12 @@ pub fn gen_script(rng: &mut Rng, prog: &Program) -> Vec<Step> {
     }
     if rng.bool() {
         script.push(Step::FireAll(rng.range(1, 12) as u32));
+    }
+    // Let virtual time pass so that timers scheduled late still become due.
+    if prog.any_node(|n| matches!(n, Node::Timer { .. })) && rng.chance(2, 3) {
+        for _ in 0..rng.range(1, 4) {
+            script.push(Step::Settle);
+        }
     }
     script
 }
